@@ -141,8 +141,10 @@ fn seqs(case: &Value, key: &str) -> Vec<String> {
             // character slots of a concretisation alphabet (slot 1 = space)
             concretise(t, &alphabet(get_str(case, "alpha")))
         } else {
-            // a sequence of word slots (0 = empty word list)
-            t.as_array().unwrap().iter().map(|x| WORDS[x.as_u64().unwrap() as usize - 1]).collect::<Vec<_>>().join(" ")
+            // a sequence of word slots (0 = empty word list); `lead`: behind a first word of three characters of two code
+            // points each (with use_graphemes the character indices then differ from the code-point indices)
+            let ws = t.as_array().unwrap().iter().map(|x| WORDS[x.as_u64().unwrap() as usize - 1]).collect::<Vec<_>>().join(" ");
+            if get_bool(case, "lead") { format!("q\u{301}q\u{301}q\u{301} {ws}").trim_end().to_string() } else { ws }
         }
     }).collect()
 }
